@@ -42,6 +42,7 @@ package main
 // closed exactly once after the input is exhausted, and the writers are waited for.
 //@ func HandleMessages
 //@ requires config != nil
+//@ requires[C13,C09] config.TimeoutOnEOFMilliSeconds <= 1<<40 && config.WaitTimeOnEOFMilliseconds <= 1<<40
 //@ ensures[C10,C11] closed(messageChan)
 //@ loop 1
 //@ invariant[C10,C11] forall(k, 0, len(channels), channels[k] != nil && allocated(channels[k]) && (closed(channels[k]) == (k <= rangeindex)))
